@@ -103,9 +103,9 @@ type RefInfo struct {
 	// KeyFileSigned: signed through nfpm's key-file path; salted signatures,
 	// no byte oracle (Stable stays false, which is not an instability).
 	KeyFileSigned bool
-	Signer *SimSigner
-	Notes  []string
-	Builds int
+	Signer        *SimSigner
+	Notes         []string
+	Builds        int
 }
 
 // Match reports whether b equals the reference bytes.
